@@ -282,7 +282,7 @@ P["C14"] = {
         K("c14.limited.buf", "traits.rs", TR + "c14_limited_buf", "LimitedBuf<B: Buf>, every usize limit: parts == (inner ptr, min(len, limit)); len/is_empty agree", ["io::traits::LimitedBuf::parts", "io::traits::LimitedBuf::len", "io::traits::LimitedBuf::is_empty"]),
         K("c14.limited.slice_mut", "traits.rs", TR + "c14_limited_slice_mut", "LimitedBuf over a 2-buffer BufMutSlice: iovecs clamped front to back, total == min(total, limit)", ["io::traits::LimitedBuf::as_iovecs_mut", "io::traits::LimitedBuf::total_spare_capacity"]),
         K("c14.limited.slice", "traits.rs", TR + "c14_limited_slice", "LimitedBuf over a 2-buffer BufSlice likewise", ["io::traits::LimitedBuf::as_iovecs", "io::traits::LimitedBuf::total_len"]),
-    ] + [K("c14.tuple.%d" % n, "traits.rs", TR + "c14_tuple_%d" % n, "tuple of %d buffers: iovecs elementwise, totals are sums, set_init(n) fills front to back, exactly n in total" % n, ["io::traits::<impl BufMutSlice/BufSlice for tuples>"], tier=("quick" if n <= 5 else "thorough")) for n in range(2, 9)]
+    ] + [K("c14.tuple.%d" % n, "traits.rs", TR + "c14_tuple_%d" % n, "tuple of %d buffers: iovecs elementwise, totals are sums, set_init(n) fills front to back, exactly n in total" % n, ["io::traits::<impl BufMutSlice/BufSlice for tuples>"], tier="quick") for n in range(2, 9)]
       + [K("c14.array.%d" % n, "traits.rs", TR + "c14_array_%d" % n, "array [B; %d] likewise (generic loops)" % n, ["io::traits::<impl BufMutSlice/BufSlice for [B; N]>"]) for n in (1, 2, 3)] + [
         K("c14.vec", "traits.rs", TR + "c14_vec", "Vec<u8>: parts_mut == uninitialised tail of the allocation; set_init(n) == set_len(len+n), no reallocation; Buf side == initialised prefix", ["io::traits::<impl BufMut for Vec<u8>>", "io::traits::<impl Buf for Vec<u8>>"], bounded="capacity <= 8"),
         K("c14.bufs", "traits.rs", TR + "c14_bufs", "&'static [u8] / &'static str / StaticBuf / Box<[u8]> / Cow<[u8]> / Cow<str>: parts == (own bytes, length), len/is_empty agree", ["io::traits::<impl Buf for ...>"], bounded="length <= 4"),
